@@ -1320,8 +1320,19 @@ class BinaryOperator(SymbolicExpression, ABC):
     def __post_init__(self):
         super().__post_init__()
         self.left, self.right = self._update_children_(self.left, self.right)
-        combined_vars = self.left._unique_variables_.union(self.right._unique_variables_)
-        self._cache_.keys = [v.id_ for v in combined_vars.filter(lambda v: not isinstance(v.value, Literal))]
+        self._cache_.keys = self._cache_keys_of_(self.left, self.right)
+
+    @staticmethod
+    def _cache_keys_of_(*expressions: SymbolicExpression) -> List[int]:
+        """
+        The ids that identify a binding of the given expressions in a result cache: their (non-literal) variables, and
+        their flattened elements, because a flattened element takes several values under one binding of its variables.
+        """
+        keys = []
+        for expression in expressions:
+            keys.extend(v.id_ for v in expression._unique_variables_ if not isinstance(v.value, Literal))
+            keys.extend(node._id_ for node in expression._all_nodes_ if isinstance(node, Flatten))
+        return list(dict.fromkeys(keys))
 
     def yield_final_output_from_cache(self, variables_sources, cache: Optional[IndexedCache] = None) \
             -> Iterable[Dict[int, HashedValue]]:
@@ -1623,8 +1634,7 @@ class LogicalOperator(BinaryOperator, ABC):
 
     def __post_init__(self):
         super().__post_init__()
-        right_vars = self.right._unique_variables_.filter(lambda v: not isinstance(v.value, Literal))
-        self.right_cache.keys = [v.id_ for v in right_vars]
+        self.right_cache.keys = self._cache_keys_of_(self.right)
 
     @property
     def _name_(self):
